@@ -262,9 +262,15 @@ def judge(seed, script, obs):
 class _LifeSock(PeerSock):
     """PeerSock + the calls Node.connect_peer makes on a fresh socket"""
 
-    def __init__(self, stream, holder):
+    def __init__(self, stream, holder, eof=False):
         super().__init__(stream, lambda: holder["thread"])
         self.peer_addr = None
+        self.eof = eof
+
+    def recv(self, k, *a):
+        if self.eof and self.off >= len(self.stream):
+            return b""                 # the peer closed the connection after its last message
+        return super().recv(k, *a)
 
     def connect(self, addr):
         self.peer_addr = addr
@@ -336,7 +342,7 @@ def chk_lifecycle(case):
         def connect(label, names):
             holder = {}
             msgs = [message(seed, nm, len(peers), i) for i, nm in enumerate(names)]
-            sock = _LifeSock(b"".join(R.frame(MAGIC, c, p_) for c, p_ in msgs), holder)
+            sock = _LifeSock(b"".join(R.frame(MAGIC, c, p_) for c, p_ in msgs), holder, eof=bool(case.get("eof")))
             pending.append(sock)
             before = set(node._peer_sockets)
             n_thr = len(threads)
@@ -350,7 +356,12 @@ def chk_lifecycle(case):
 
         def run(pr):
             pr["ran"] = True
-            pr["thread"].target(*pr["thread"].args)
+            try:
+                pr["thread"].target(*pr["thread"].args)
+            except ConnectionError:
+                if not case.get("eof"):
+                    raise
+                # (a peer that closes its connection ends its receive loop with the ConnectionError of recv_msg: not judged)
         for label, names in zip("abc", case["first"]):
             connect(label, names)
         for pr, ex in zip(list(peers), case["exits"]):
@@ -489,6 +500,11 @@ def run_job(job):
                     if any(exits) and not all(exits):
                         acc.ob("peer_gone_while_others_live")
                     acc.check("lifecycle", {"seed": job["seed"], "first": [list(x) for x in first], "exits": list(exits), "late": late}, chk_lifecycle)
+                    if any(exits):
+                        # the same history with peers that CLOSE their connection after the last message (recv returns b"")
+                        acc.evaluations += 1
+                        acc.executions += 1
+                        acc.check("lifecycle", {"seed": job["seed"], "first": [list(x) for x in first], "exits": list(exits), "late": late, "eof": True}, chk_lifecycle)
         acc.sample({"lifecycle": "3 peers x 3 scripts each x 8 exit subsets x 2 late-peer scripts"})
         return acc.result()
     acc = Acc(job)
